@@ -91,14 +91,18 @@ inline void run_group(const ApiGroup& G, const BoxOpts& o, const std::function<v
       for (uint64_t k : o.ks)
         for (uint64_t rs : SZ) for (uint64_t rsl : strides) {
           if (G.sub < 2) {
-            for (uint64_t as : SZ) for (uint64_t asl : (G.sub == 0 ? strides : one)) {
+            std::vector<uint64_t> AS = SZ; if (N <= 64 && rs <= 3) AS.push_back(40);  // one long source: many limbs are only read for their carry
+            for (uint64_t as : AS) for (uint64_t asl : (G.sub == 0 ? strides : one)) {
               NormShape s; s.N = N; s.k = k; s.rs = rs; s.rsl = rsl; s.as = as; s.asl = asl; s.variant = G.sub; s.dataset = (int)((rs + as) % 3);
               ApiCase c = gen_normalize(mod, s, cfg);
               fn(c);
               if (o.inplace && rsl == asl) { s.alias = 1; ApiCase ca = gen_normalize(mod, s, cfg); fn(ca); }
             }
           } else {
-            for (uint64_t end = 0; end <= 5; ++end) for (uint64_t begin = 0; begin <= end; ++begin) for (uint64_t step = 1; step <= 3; ++step) {
+            std::vector<std::vector<uint64_t>> RG;
+            for (uint64_t end = 0; end <= 5; ++end) for (uint64_t begin = 0; begin <= end; ++begin) for (uint64_t step = 1; step <= 3; ++step) RG.push_back({begin, end, step});
+            if (N <= 64 && rs <= 3) { RG.push_back({0, 40, 1}); RG.push_back({1, 80, 2}); }  // long ranges
+            for (auto& rg : RG) { const uint64_t begin = rg[0], end = rg[1], step = rg[2];
               NormShape s; s.N = N; s.k = k; s.rs = rs; s.rsl = rsl; s.variant = 2; s.begin = begin; s.end = end; s.step = step; s.dataset = (int)((rs + end) % 3);
               ApiCase c = gen_normalize(mod, s, cfg);
               fn(c);
